@@ -21,10 +21,10 @@ SymbolGraph()
 def world(falsy=False):
     c = {"c1": Container("c1"), "c2": Container("c2"), "c1b": Container("c1")}
     h = {"h1": Handle("h1"), "h2": Handle("h2")}
-    d = {"d1": Drawer(handle=h["h1"], container=c["c1"]), "d2": Drawer(handle=h["h2"], container=c["c2"]),
-         "d3": Drawer(handle=h["h1"], container=c["c1b"])}
-    kc = {"k0": "c1", "k1": "c2", "k2": "c1", "k3": "c1b", "k4": "c2"}
-    kd = {"k0": ["d1", "d2"], "k1": ["d1", "d2"], "k2": ["d1"], "k3": [], "k4": ["d3"]}
+    d = {"d1": Drawer(handle=h["h1"], container=c["c1"], correct=False), "d2": Drawer(handle=h["h2"], container=c["c2"], correct=True),
+         "d3": Drawer(handle=h["h1"], container=c["c1b"], correct=True)}
+    kc = {"k0": "c1", "k1": "c2", "k2": "c1", "k3": "c1b", "k4": "c2", "k5": "c2"}
+    kd = {"k0": ["d1", "d2"], "k1": ["d1", "d2"], "k2": ["d1"], "k3": [], "k4": ["d3"], "k5": ["d1", "d3"]}
     k = {n: (EmptyishCabinet if falsy and n in ("k0", "k2") else Cabinet)(container=c[kc[n]], drawers=[d[x] for x in kd[n]]) for n in kc}
     return c, h, d, k
 
@@ -39,7 +39,9 @@ def kwargs_for(pc, pd, c, d, sel, seld=False):
     elif pc[0] == "match":
         m = (select if sel else match)(TYPES[pc[1]])
         kw["container"] = m(name=pc[2]) if pc[2] != "*" else m()
-    if pd[0] == "lit":
+    if pd[0] == "correct":
+        kw["drawers"] = match(Drawer)(correct=True)
+    elif pd[0] == "lit":
         kw["drawers"] = d[pd[1]]
     elif pd[0] == "match":
         inner = {}
@@ -88,6 +90,9 @@ def handle(case):
         k["k2"].drawers.append(d["d2"])
         out["cabinets_after_edit"] = [names.get(id(r), "?") for r in q.evaluate()]
         k["k2"].drawers.pop()
+        # an explicitly EMPTY domain: nothing can match, whatever instances of the type exist elsewhere in the process
+        q0 = an(entity_matching(Cabinet, [])(**kwargs_for(case["pc"], case["pd"], c, d, False)))
+        out["cabinets_empty_domain"] = [names.get(id(r), "?") for r in q0.evaluate()]
     except Exception as ex:
         out["error"] = f"{type(ex).__name__}: {ex}"
     if case["pc"][0] == "match":
